@@ -442,6 +442,9 @@ impl Consumer {
             topic_ref,
             partition,
         };
+        if !self.state.fetch_offsets.contains_key(&tp) {
+            return Err(Error::Kafka(KafkaCode::UnknownTopicOrPartition));
+        }
         match self.state.consumed_offsets.entry(tp) {
             Entry::Vacant(v) => {
                 v.insert(state::ConsumedOffset {
